@@ -451,3 +451,115 @@ func FuzzQuantile(f *testing.F) {
 		checkQuantile.Run(rt, c)
 	}))
 }
+
+// ---------------------------------------------------------------- adversarial orders
+//
+// Replacing the sort inside Quantile by a selection routine is the obvious improvement (the
+// source carries a TODO for it), and the defects seeded into such routines sit in fall-back
+// branches that only an order built against the routine's pivot rule reaches. Random orders do
+// not get there. What can be done generically is (1) to keep the killer orders that have been
+// seen (as rank patterns: any strictly increasing relabelling of the values takes the same
+// path) and (2) to generate the classical adversarial families for median-of-three pivots.
+
+var killerPatterns = [][]int{
+	// found by the author of seeded change V10 (interior median-of-three)
+	{20, 25, 21, 18, 22, 14, 23, 15, 24, 17, 0, 2, 13, 4, 6, 16, 8, 10, 19, 1, 3, 5, 7, 9, 11, 26, 27, 28, 29, 30, 31, 32, 33, 34, 35, 36, 37, 38, 39, 12},
+	// Y10 (pivot from the 1/4, 1/2, 3/4 positions)
+	{46, 62, 45, 61, 44, 59, 43, 58, 42, 56, 41, 55, 40, 53, 64, 63, 1, 3, 60, 5, 7, 57, 9, 11, 54, 13, 52, 51, 50, 49, 48, 47, 2, 4, 6, 8, 10, 12, 14, 39, 38, 37, 36, 35, 34, 33, 32, 31, 30, 29, 28, 27, 26, 25, 24, 23, 22, 21, 20, 19, 18, 17, 16, 15},
+	// Z10 (median-of-three with a cap on the number of rounds)
+	{19, 6, 4, 16, 15, 10, 9, 24, 1, 2, 23, 22, 12, 14, 8, 13, 7, 3, 17, 20, 11, 18, 5, 21},
+}
+
+// musser is the median-of-three killer sequence (Musser 1997) for first/middle/last pivots:
+// 1, k+1, 3, k+3, ..., 2k-1 interleaved, then 2, 4, ..., 2k.
+func musser(n int) []int {
+	k := n / 2
+	out := make([]int, 0, 2*k)
+	for i := 1; i <= k; i++ {
+		if i%2 == 1 {
+			out = append(out, i)
+		} else {
+			out = append(out, k+i-1)
+		}
+	}
+	for i := 1; i <= k; i++ {
+		out = append(out, 2*i)
+	}
+	// make it a permutation of 1..2k: relabel by rank, ties broken by position
+	idx := make([]int, len(out))
+	for i := range idx {
+		idx[i] = i
+	}
+	sort.SliceStable(idx, func(a, b int) bool { return out[idx[a]] < out[idx[b]] })
+	perm := make([]int, len(out))
+	for r, i := range idx {
+		perm[i] = r + 1
+	}
+	return perm
+}
+
+func TestKillerOrders(t *testing.T) {
+	ev.Rule(rule)
+	ev.Rapid(t, "c10-killers", 600, 12000, func(rt *rapid.T) {
+		var pat []int
+		switch rapid.IntRange(0, 5).Draw(rt, "family") {
+		case 0, 1:
+			pat = killerPatterns[rapid.IntRange(0, len(killerPatterns)-1).Draw(rt, "stored")]
+		case 2:
+			pat = musser(2 * rapid.IntRange(11, 100).Draw(rt, "musserHalf"))
+		case 3: // organ pipe and its inverse
+			n := rapid.IntRange(22, 200).Draw(rt, "n")
+			for i := 0; i < n; i++ {
+				if i < n/2 {
+					pat = append(pat, 2*i)
+				} else {
+					pat = append(pat, 2*(n-1-i)+1)
+				}
+			}
+		case 4: // two interleaved runs (evens ascending, odds descending)
+			n := rapid.IntRange(22, 200).Draw(rt, "n")
+			for i := 0; i < n; i++ {
+				if i%2 == 0 {
+					pat = append(pat, i)
+				} else {
+					pat = append(pat, 2*n-i)
+				}
+			}
+		default: // a stored killer with a few random transpositions (a near miss of its rule)
+			pat = append([]int(nil), killerPatterns[rapid.IntRange(0, len(killerPatterns)-1).Draw(rt, "stored")]...)
+			for k := rapid.IntRange(1, 3).Draw(rt, "swaps"); k > 0; k-- {
+				i, j := rapid.IntRange(0, len(pat)-1).Draw(rt, "i"), rapid.IntRange(0, len(pat)-1).Draw(rt, "j")
+				pat[i], pat[j] = pat[j], pat[i]
+			}
+		}
+		n := len(pat)
+		// any strictly increasing relabelling takes the same path: ranks -> increasing values
+		order := append([]int(nil), pat...)
+		sort.Ints(order)
+		vals := gen.Increasing(rt, n, rapid.IntRange(0, 1).Draw(rt, "valStyle"), "vals")
+		rankOf := map[int]int{}
+		for r, v := range order {
+			rankOf[v] = r
+		}
+		c := &Case{Xs: make([]float64, n)}
+		mirror := rapid.Bool().Draw(rt, "mirror")
+		for i, p := range pat {
+			r := rankOf[p]
+			if mirror {
+				r = n - 1 - r
+			}
+			c.Xs[i] = vals[r]
+		}
+		if rapid.Bool().Draw(rt, "reverse") {
+			for i, j := 0, n-1; i < j; i, j = i+1, j-1 {
+				c.Xs[i], c.Xs[j] = c.Xs[j], c.Xs[i]
+			}
+		}
+		c.Perm = gen.Perm(rt, n, "perm")
+		for k := 1; k < n; k += 1 + n/24 { // the break points h = k, across the whole range
+			c.Qs = append(c.Qs, ev.F((float64(k)-1.0/3)/(float64(n)+1.0/3)))
+		}
+		c.Qs = append(c.Qs, 0.5, 0.25, 0.75, ev.F(rapid.Float64Range(0, 1).Draw(rt, "q")))
+		checkQuantile.Run(rt, c)
+	})
+}
